@@ -188,6 +188,70 @@ def count_panicky(src):
     }
 
 
+REVIEWED = os.path.join(os.path.dirname(os.path.abspath(__file__)), "preset_panic_sites_reviewed.json")
+
+
+def preset_panic_sites():
+    """Every panic-capable expression in the non-test code of src/commands/checkpoint_agent/*.rs:
+    `.unwrap()`, `.expect(`, panic-family macros, asserts, and index / slice expressions `recv[..]`.
+    Classes:
+      jsonIndex  — `recv["literal"]` in a function whose receiver is a serde_json::Value (Index<&str> on a Value
+                   yields Null instead of panicking); the (file, fn) pairs are listed in the reviewed file;
+      reviewed   — the exact (file, fn, normalised text) is listed in preset_panic_sites_reviewed.json with the
+                   reason it cannot fail for any payload;
+      unreviewed — anything else (must be empty: a new unwrap / slice in a decoder is a candidate crash on some payload)."""
+    rv = json.load(open(REVIEWED))
+    json_fns = {(e["file"], e["fn"]) for e in rv["json_index_functions"]}
+    reviewed = {(e["file"], e["fn"], e["text"]) for e in rv["sites"]}
+    pdir = os.path.join(C.REPO, "src", "commands", "checkpoint_agent")
+    out = []
+    for fname in sorted(os.listdir(pdir)):
+        if not fname.endswith(".rs"):
+            continue
+        raw = open(os.path.join(pdir, fname)).read()
+        s = blank_comments(raw)
+        m = re.search(r"#\[cfg\(test\)\]", s)
+        if m:
+            s = s[:m.start()]
+        sb = blank_strings(s)
+        fns = [(mm.start(), mm.group(1)) for mm in re.finditer(r"\bfn\s+([A-Za-z_]\w*)", sb)]
+
+        def fn_at(pos):
+            name = "<top>"
+            for st, nm in fns:
+                if st <= pos:
+                    name = nm
+                else:
+                    break
+            return name
+
+        found = []
+        for mm in re.finditer(r"\.unwrap\(\)|\.expect\(|\b(?:unreachable|panic|todo|unimplemented|assert|assert_eq|assert_ne)!\s*\(", sb):
+            a = max(sb.rfind(";", 0, mm.start()), sb.rfind("{", 0, mm.start()), sb.rfind("}", 0, mm.start())) + 1
+            found.append((mm.start(), "call", re.sub(r"\s+", " ", s[a:mm.end()]).strip()[-160:]))
+        for mm in re.finditer(r"([A-Za-z_][\w]*(?:\.[A-Za-z_]\w*)*|\)|\])\[([^\[\]]*)\]", sb):
+            inner = s[mm.start(2):mm.end(2)]
+            pre = sb[max(0, mm.start() - 8):mm.start(1)]
+            if re.search(r"#!?\s*$", pre) or mm.group(1) in ("vec",) or sb[mm.start(1) - 1:mm.start(1)] == "!" \
+                    or ";" in inner or inner.strip() == "" or re.match(r"^\s*(u8|u16|u32|u64|usize|i32|i64|String|&str|&'static str|char|bool|f32|f64)\b", inner):
+                continue      # attributes, macros, array types / literals
+            if sb[mm.end(1):mm.end(1) + 1] != "[":
+                continue
+            # array literal `&[a, b]` / `= [..]` are preceded by an operator, not by an identifier: excluded by the regex
+            found.append((mm.start(), "index", re.sub(r"\s+", " ", s[mm.start():mm.end()]).strip()))
+        for pos, kind, text in sorted(found):
+            fn = fn_at(pos)
+            is_lit = kind == "index" and re.search(r"\[\s*\"[^\"]*\"\s*\]$", text) is not None
+            if is_lit and (fname, fn) in json_fns:
+                cls = "jsonIndex"
+            elif (fname, fn, text) in reviewed:
+                cls = "reviewed"
+            else:
+                cls = "unreviewed"
+            out.append({"file": fname, "fn": fn, "line": line_of(s, pos), "kind": kind, "text": text, "class": cls})
+    return out
+
+
 def extract():
     path = os.path.join(C.REPO, "src", "commands", "git_ai_handlers.rs")
     raw = open(path).read()
@@ -286,7 +350,8 @@ def extract():
 
     return {"sites": sites, "arms": [{k: v for k, v in a.items() if k != "span"} for a in arms],
             "unwraps": unwraps, "preset_counts": preset_counts,
-            "agent_v1_panicky": av1["unwrap"] + av1["expect"] + av1["index_or_slice"]}
+            "agent_v1_panicky": av1["unwrap"] + av1["expect"] + av1["index_or_slice"],
+            "preset_sites": preset_panic_sites()}
 
 
 def render(x):
@@ -320,6 +385,19 @@ def render(x):
         L.append(f"def {cls}Unwraps : List Nat := [" + ", ".join(str(u["line"]) for u in x["unwraps"] if u["class"] == cls) + "]\n")
     L.append("/-- `.unwrap()` + `.expect(` + index/slice expressions in agent_v1_preset.rs (non-test code) -/")
     L.append(f"def agentV1Panicky : Nat := {x['agent_v1_panicky']}\n")
+    ps = x["preset_sites"]
+    L.append("/-- panic-capable expressions (unwrap / expect / panic-family macros / index and slice expressions) in the\n"
+             "    non-test code of src/commands/checkpoint_agent/*.rs, by class: 0 = string-literal index on a\n"
+             "    serde_json::Value (cannot panic), 1 = reviewed (extract/preset_panic_sites_reviewed.json), 2 = unreviewed -/")
+    L.append("def presetPanicSites : List (Nat × Nat) := [")
+    rows = []
+    for k, u in enumerate(ps):
+        comma = "," if k + 1 < len(ps) else ""
+        code = {"jsonIndex": 0, "reviewed": 1, "unreviewed": 2}[u["class"]]
+        txt = u["text"].replace("-/", "- /").replace("/-", "/ -")
+        rows.append(f"  ({u['line']}, {code}){comma}  -- {u['file']} fn {u['fn']}: {txt[:110]}")
+    L.append("\n".join(rows))
+    L.append("]\n")
     L.append("end GitAi.CheckpointExits\n")
     return "\n".join(L)
 
